@@ -225,7 +225,7 @@ func TestVerifCrash(t *testing.T) {
 				if !preNames[nme] {
 					at = base.Add(30 * time.Minute) // the file of the interrupted upload is the most recently touched one
 				}
-				_ = os.Chtimes(p, at, at)
+				_ = os.Chtimes(p, at, at.Add(time.Duration(rng.Intn(600)-300)*time.Second))
 			}
 			sig := fmt.Sprintf("%s.%s.%s->%s", img.label, kind.String(), modeA, modeB)
 			cs.Note("image " + sig + fmt.Sprintf(" (%d files)", len(names)))
@@ -302,9 +302,16 @@ func TestVerifCrash(t *testing.T) {
 			if kind == cache.CAS && modeA == "zstd" {
 				stored = "compressed"
 			}
-			for _, v := range []struct {
+			// the first read of a damaged file makes the cache drop the entry: every read variant gets its
+			// turn at being the first one (the order is drawn per image)
+			variants := []struct {
 				known, z bool
-			}{{true, false}, {false, false}, {true, true}, {false, true}} {
+			}{{true, false}, {false, false}, {true, true}, {false, true}}
+			for i := len(variants) - 1; i > 0; i-- {
+				j := rng.Intn(i + 1)
+				variants[i], variants[j] = variants[j], variants[i]
+			}
+			for _, v := range variants {
 				if v.z && kind != cache.CAS {
 					continue
 				}
